@@ -3,6 +3,7 @@
    extracted Coq datatypes; there is no Extract Constant. *)
 Require Extraction.
 Require Import ExtrOcamlBasic.
-From GLMM Require Half.
+From GLMM Require Half IntFn.
 Extraction Language OCaml.
-Extraction "models.ml" Half.toFloat32 Half.toFloat16 Half.packHalf2x16 Half.unpackHalf2x16 Half.packHalf4x16 Half.unpackHalf4x16 Half.packHalfL Half.unpackHalfL.
+Extraction "models.ml" Half.toFloat32 Half.toFloat16 Half.packHalf2x16 Half.unpackHalf2x16 Half.packHalf4x16 Half.unpackHalf4x16 Half.packHalfL Half.unpackHalfL
+  IntFn.norm IntFn.umod IntFn.bitfieldReverse IntFn.bitCount IntFn.findLSB IntFn.findMSB IntFn.bitfieldExtract IntFn.bitfieldInsert IntFn.uaddCarry IntFn.usubBorrow IntFn.umulExtended IntFn.imulExtended IntFn.mask_T.
